@@ -4,6 +4,8 @@ quick-tier evidence files (evidence/<id>.json must come from `./check <id> --tie
 import json, re, sys
 p = "/verif/DESIGN.md"
 s = open(p).read()
+start = s.index("## 11. Per property")          # only the as-built table of section 11 (section 5 has the plan's table)
+head, s = s[:start], s[start:]
 for i in range(1, 21):
     pid = f"C{i:02d}"
     ev = json.load(open(f"/verif/evidence/{pid}.json"))
@@ -21,5 +23,5 @@ for i in range(1, 21):
     tot_b = len([1 for k, v in cov.get("backends", {}).items() if "bounded" in k for _ in range(v)])
     new = f"{n}" + (f" (+{tot_b} bounded)" if tot_b else "")
     s = s[:m.start(2)] + " " + new + " " + s[m.end(2):]
-open(p, "w").write(s)
+open(p, "w").write(head + s)
 print("DESIGN.md §11 counts refreshed")
